@@ -89,6 +89,8 @@ class Lean:
         lock = self._locked()
         try:
             res["tables_changed"] = extract.write_tables(REPO, VERIF)
+            import gen_roots
+            gen_roots.main()
             t0 = time.time()
             rc, out = sh(["lake", "build", "Props.%s" % prop], cwd=LEAN, timeout=1500)
             res["build_s"] = round(time.time() - t0, 1)
@@ -392,9 +394,17 @@ class Ctx:
 
 
 def load_findings(prop):
-    path = os.path.join(VERIF, "known_findings.json")
-    if not os.path.exists(path):
-        return []
-    with open(path) as f:
-        data = json.load(f)
-    return [e for e in data.get("findings", []) if e.get("property") == prop]
+    """known_findings.json is the committed file; known_findings.d/*.json are fragments written by
+    work in progress on single properties (merged into the main file before release)"""
+    out = []
+    paths = [os.path.join(VERIF, "known_findings.json")]
+    d = os.path.join(VERIF, "known_findings.d")
+    if os.path.isdir(d):
+        paths += [os.path.join(d, fn) for fn in sorted(os.listdir(d)) if fn.endswith(".json")]
+    for path in paths:
+        if not os.path.exists(path):
+            continue
+        with open(path) as f:
+            data = json.load(f)
+        out += [e for e in data.get("findings", []) if e.get("property") == prop]
+    return out
